@@ -207,6 +207,137 @@ theorem xtsCrypt_spec (out mem : Bytes) (dst src : Sl) (hout : out.length = src.
     simp only [List.drop_zero] at this
     rw [this]
 
+/-! ## 3b. chacha20poly1305 Seal / Open: in place (the documented `plaintext[:0]` / `ciphertext[:0]` prefix, or
+   any dst whose appended region starts exactly at the input) = separate buffers -/
+
+theorem xor_cancel (p c : Bytes) (h : p.length = c.length) : xorBytes p (xorBytes c p) = c := by
+  induction p generalizing c with
+  | nil => cases c with
+    | nil => rfl
+    | cons _ _ => simp at h
+  | cons a p ih =>
+    cases c with
+    | nil => simp at h
+    | cons b c =>
+      simp only [List.length_cons, Nat.add_right_cancel_iff] at h
+      simp only [xorBytes, List.zipWith_cons_cons] at ih ⊢
+      rw [ih c h]
+      congr 1
+      rw [UInt8.xor_comm b a, ← UInt8.xor_assoc, UInt8.xor_self, UInt8.zero_xor]
+
+/-- what the guard leaves when the output region (`n + e` bytes) is longer than the input (`n` bytes) -/
+theorem not_inexact_cases_longer (d s n e : Nat) (h : inexactOverlap ⟨d, n + e⟩ ⟨s, n⟩ = false) :
+    n = 0 ∨ d = s ∨ d + (n + e) ≤ s ∨ s + n ≤ d := by
+  by_cases hn : n = 0
+  · exact Or.inl hn
+  by_cases hds : d = s
+  · exact Or.inr (Or.inl hds)
+  have : ¬ (inexactOverlap ⟨d, n + e⟩ ⟨s, n⟩ = true) := by simp [h]
+  rw [inexactOverlap_iff] at this
+  simp only [Sl.mem, not_and, ne_eq] at this
+  by_cases c : d + (n + e) ≤ s ∨ s + n ≤ d
+  · rcases c with c | c
+    · exact Or.inr (Or.inr (Or.inl c))
+    · exact Or.inr (Or.inr (Or.inr c))
+  · exfalso
+    apply this ⟨max d s, by omega⟩
+    exact hds
+
+/-- the in-place data path shared by Seal and Open: xor with `out xor src`, for a region that starts at the
+    input or lies outside it, leaves exactly `out` in the output region -/
+theorem xorLoop_oracle (out mem : Bytes) (d s n : Nat) (hout : out.length = n)
+    (hd : d + n ≤ mem.length) (hs : s + n ≤ mem.length) (hov : d = s ∨ d + n ≤ s ∨ s + n ≤ d) :
+    xorLoop (xorBytes out (rd mem s n)) mem d s n = wr mem d out := by
+  have hr : (rd mem s n).length = n := rd_length _ _ _ hs
+  have hk : (xorBytes out (rd mem s n)).length = n := by simp [xorBytes_length, hout, hr]
+  have e : (xorBytes out (rd mem s n)).take n = xorBytes out (rd mem s n) :=
+    List.take_of_length_le (by omega)
+  rw [xor_loop_functional _ mem d s n (by omega) hd hs hov, e, xor_cancel _ _ (by rw [hr, hout])]
+
+/-- **Seal**: panic exactly on the guard; otherwise the returned slice is `dst ‖ ct ‖ tag` and — when the
+    capacity is reused — the arena holds `ct ‖ tag` in the appended region and is unchanged elsewhere, whether
+    the region starts exactly at the plaintext (in place) or is disjoint from it: the same bytes as on
+    separate buffers -/
+theorem aeadSeal_spec (ct tag mem : Bytes) (dst : Dst) (pt ad : Sl) (hct : ct.length = pt.len)
+    (htag : tag.length = 16) (hp : pt.off + pt.len ≤ mem.length) (hdst : dst.off + dst.cap ≤ mem.length) :
+    aeadSeal ct tag mem dst pt ad =
+      if inexactOverlapO (sliceForAppend dst (pt.len + 16)) pt = true ∨
+         anyOverlapO (sliceForAppend dst (pt.len + 16)) ad = true then .panic
+      else match sliceForAppend dst (pt.len + 16) with
+        | none => .ok (rd mem dst.off dst.len ++ ct ++ tag) mem
+        | some o => .ok (rd (wr mem o.off (ct ++ tag)) dst.off (dst.len + pt.len + 16)) (wr mem o.off (ct ++ tag)) := by
+  unfold aeadSeal
+  by_cases h1 : inexactOverlapO (sliceForAppend dst (pt.len + 16)) pt = true
+  · simp [h1]
+  by_cases h2 : anyOverlapO (sliceForAppend dst (pt.len + 16)) ad = true
+  · simp [h1, h2]
+  simp only [h1, h2, or_self, if_false]
+  cases hs : sliceForAppend dst (pt.len + 16) with
+  | none => rfl
+  | some o =>
+    have ho : o = ⟨dst.off + dst.len, pt.len + 16⟩ ∧ dst.len + (pt.len + 16) ≤ dst.cap := by
+      simp only [sliceForAppend] at hs
+      split at hs
+      · cases hs; exact ⟨rfl, by omega⟩
+      · cases hs
+    obtain ⟨ho, hcap⟩ := ho
+    simp only [hs, inexactOverlapO] at h1
+    have h1' : inexactOverlap ⟨o.off, pt.len + 16⟩ ⟨pt.off, pt.len⟩ = false := by
+      rw [ho] at h1 ⊢; simpa using h1
+    have hc := not_inexact_cases_longer _ _ _ _ h1'
+    have hoo : o.off = dst.off + dst.len := by rw [ho]
+    simp only []
+    by_cases hn : pt.len = 0
+    · have hct0 : ct = [] := List.eq_nil_of_length_eq_zero (by omega)
+      subst hct0
+      simp [hn, xorLoop, chunkLoop, xorBytes, rd]
+    · rw [xorLoop_oracle ct mem o.off pt.off pt.len hct (by omega) hp (by omega)]
+      have := wr_wr_adjacent mem o.off ct tag (by omega)
+      rw [hct] at this
+      rw [this]
+      simp
+
+/-- **Open** (authentic input): panic exactly on the guard; otherwise the appended region holds the
+    plaintext, in place or not -/
+theorem aeadOpen_spec (pt mem : Bytes) (dst : Dst) (ct ad : Sl) (h16 : 16 ≤ ct.len) (hpt : pt.length = ct.len - 16)
+    (hc : ct.off + ct.len ≤ mem.length) (hdst : dst.off + dst.cap ≤ mem.length) :
+    aeadOpen pt mem dst ct ad =
+      if inexactOverlapO (sliceForAppend dst (ct.len - 16)) ⟨ct.off, ct.len - 16⟩ = true ∨
+         anyOverlapO (sliceForAppend dst (ct.len - 16)) ⟨ct.off + (ct.len - 16), 16⟩ = true ∨
+         anyOverlapO (sliceForAppend dst (ct.len - 16)) ad = true then .panic
+      else match sliceForAppend dst (ct.len - 16) with
+        | none => .ok (rd mem dst.off dst.len ++ pt) mem
+        | some o => .ok (rd (wr mem o.off pt) dst.off (dst.len + (ct.len - 16))) (wr mem o.off pt) := by
+  unfold aeadOpen
+  by_cases h1 : inexactOverlapO (sliceForAppend dst (ct.len - 16)) ⟨ct.off, ct.len - 16⟩ = true
+  · simp [h1]
+  by_cases h2 : anyOverlapO (sliceForAppend dst (ct.len - 16)) ⟨ct.off + (ct.len - 16), 16⟩ = true
+  · simp [h1, h2]
+  by_cases h3 : anyOverlapO (sliceForAppend dst (ct.len - 16)) ad = true
+  · simp [h1, h2, h3]
+  simp only [h1, h2, h3, or_self, Bool.or_self, if_false]
+  cases hs : sliceForAppend dst (ct.len - 16) with
+  | none => rfl
+  | some o =>
+    have ho : o = ⟨dst.off + dst.len, ct.len - 16⟩ ∧ dst.len + (ct.len - 16) ≤ dst.cap := by
+      simp only [sliceForAppend] at hs
+      split at hs
+      · cases hs; exact ⟨rfl, by omega⟩
+      · cases hs
+    obtain ⟨ho, hcap⟩ := ho
+    simp only [hs, inexactOverlapO] at h1
+    have h1' : inexactOverlap ⟨o.off, ct.len - 16⟩ ⟨ct.off, ct.len - 16⟩ = false := by
+      rw [ho] at h1 ⊢; simpa using h1
+    have hcs := not_inexact_cases _ _ _ h1'
+    have hoo : o.off = dst.off + dst.len := by rw [ho]
+    simp only []
+    by_cases hn : ct.len - 16 = 0
+    · have hpt0 : pt = [] := List.eq_nil_of_length_eq_zero (by omega)
+      subst hpt0
+      simp [hn, xorLoop, chunkLoop, xorBytes, rd, wr]
+    · rw [xorLoop_oracle pt mem o.off ct.off (ct.len - 16) hpt (by omega) (by omega) (by omega)]
+      simp
+
 /-- the panic conditions of the append-style functions, as decided by the model -/
 theorem aeadSeal_panics_iff (ct tag mem : Bytes) (dst : Dst) (pt ad : Sl) :
     aeadSeal ct tag mem dst pt ad = .panic ↔
@@ -276,6 +407,45 @@ theorem aeadSeal_inplace_ok (ct tag mem : Bytes) (pt ad : Sl) (cap : Nat) (hcap 
   have : sliceForAppend ⟨pt.off, 0, cap⟩ (pt.len + 16) = some ⟨pt.off, pt.len + 16⟩ := by
     simp [sliceForAppend]; omega
   simp [this, inexactOverlapO, anyOverlapO, inexactOverlap, had]
+
+/-! ## non-vacuity: concrete instances of the hypotheses above -/
+
+/-- exact overlap (dst = src) and disjoint buffers satisfy the loop hypothesis; an inexact overlap does not -/
+example : inexactOverlap ⟨4, 8⟩ ⟨4, 8⟩ = false ∧ inexactOverlap ⟨20, 8⟩ ⟨4, 8⟩ = false ∧
+    inexactOverlap ⟨5, 8⟩ ⟨4, 8⟩ = true ∧ anyOverlap ⟨4, 8⟩ ⟨11, 1⟩ = true ∧ anyOverlap ⟨4, 8⟩ ⟨12, 1⟩ = false := by decide
+
+/-- chacha20 in place on bytes 1..3 of a 5-byte arena: xored in place, neighbours untouched -/
+example : chachaXor [1, 2, 4] [10, 20, 30, 40, 50] ⟨1, 3⟩ ⟨1, 3⟩ = .ok [] [10, 21, 28, 44, 50] := by decide
+/-- dst one byte after src panics; a short dst panics; an empty src is a no-op -/
+example : chachaXor [1, 2, 4] [10, 20, 30, 40, 50] ⟨2, 3⟩ ⟨1, 3⟩ = .panic ∧
+    chachaXor [1, 2, 4] [10, 20, 30, 40, 50] ⟨1, 2⟩ ⟨1, 3⟩ = .panic ∧
+    chachaXor [] [10, 20] ⟨1, 0⟩ ⟨0, 0⟩ = .ok [] [10, 20] := by decide
+
+/-- a word-wise then byte-wise schedule (chunks 4,4,1,1) in place -/
+example : chunkLoop (xorG (List.replicate 10 0xff)) [4, 4, 1, 1] 0 (List.replicate 12 0x0f) 1 1 =
+    wr (List.replicate 12 0x0f) 1 (List.replicate 10 0xf0) := by decide
+
+/-- XTS on one 16-byte block in place (oracle: the sector computed on separate buffers), and the panics -/
+example : xtsCrypt (rd (List.replicate 20 3) 2 16) (List.replicate 16 7) (List.replicate 20 3) ⟨2, 16⟩ ⟨2, 16⟩ =
+      .ok [] ([3, 3] ++ List.replicate 16 7 ++ [3, 3]) ∧
+    xtsCrypt (rd (List.replicate 20 3) 2 16) (List.replicate 16 7) (List.replicate 20 3) ⟨3, 16⟩ ⟨2, 16⟩ = .panic ∧
+    xtsCrypt (rd (List.replicate 20 3) 2 15) (List.replicate 15 7) (List.replicate 20 3) ⟨2, 15⟩ ⟨2, 15⟩ = .panic := by
+  decide
+
+/-- Seal with the documented prefix plaintext[:0] and capacity for the tag: ct ‖ tag replaces the plaintext -/
+example : aeadSeal [7, 8] (List.replicate 16 1) (List.replicate 20 0) ⟨0, 0, 18⟩ ⟨0, 2⟩ ⟨19, 1⟩ =
+    .ok ([7, 8] ++ List.replicate 16 1) ([7, 8] ++ List.replicate 16 1 ++ [0, 0]) := by decide
+/-- one byte of capacity short: a fresh allocation, the arena is untouched -/
+example : aeadSeal [7, 8] (List.replicate 16 1) (List.replicate 20 0) ⟨0, 0, 17⟩ ⟨0, 2⟩ ⟨19, 1⟩ =
+    .ok ([7, 8] ++ List.replicate 16 1) (List.replicate 20 0) := by decide
+/-- the AD inside the appended region panics -/
+example : aeadSeal [7, 8] (List.replicate 16 1) (List.replicate 20 0) ⟨0, 0, 18⟩ ⟨0, 2⟩ ⟨17, 1⟩ = .panic := by decide
+/-- Open in place with ciphertext[:0] -/
+example : aeadOpen [5] (List.replicate 20 9) ⟨2, 0, 17⟩ ⟨2, 17⟩ ⟨0, 0⟩ =
+    .ok [5] ([9, 9, 5] ++ List.replicate 17 9) := by decide
+/-- secretbox-style: message[:0] as out overlaps the message → panic; a disjoint out with capacity is written -/
+example : appendNoOverlap [1, 2, 3] (List.replicate 8 0) ⟨0, 0, 8⟩ ⟨0, 2⟩ = .panic ∧
+    appendNoOverlap [1, 2, 3] (List.replicate 8 0) ⟨4, 1, 4⟩ ⟨0, 2⟩ = .ok [0, 1, 2, 3] [0, 0, 0, 0, 0, 1, 2, 3] := by decide
 
 /-! ## 4. Open: overlap with the tag bytes (fixed in /repo 6713907; see known_findings.txt) -/
 
